@@ -275,6 +275,12 @@ def check(world: WorldA, sysm: System) -> None:
         label = spa._verif_label
         tr = sysm.transports[label]
         single = spa is sysm.spas[-1] and spa is sysm.spa     # the live connection; earlier ones were abandoned
+        qrec = sysm.queues.get(label)
+        if single and qrec is not None and qrec._live:
+            # the receive queue had not drained when the run's (bounded) patience ended -- a backlog of unclaimed duplicates is discarded at five
+            # a second: what is still queued has not been handled yet, so only the prefix rule applies
+            single = False
+            res.probe("receive_queue_not_drained_at_the_end")
         # A: STATP datagrams as delivered to this endpoint, in delivery order (a duplicate is an arrival)
         arrivals: List[Tuple[int, Any]] = []
         for r in hist:
@@ -348,33 +354,40 @@ def check(world: WorldA, sysm: System) -> None:
             world.violate(PROP, "unrecorded-write", f"{label}: final block is not the fold of the recorded writes")
         # what a refresh installs is ONE answer of the spa: the chain it sent in reply to the request that was outstanding (not pieces of an
         # answer to an earlier, abandoned attempt mixed with it).  Judged when no segment of an earlier answer was still under way.
-        # (only where the network neither duplicates nor delays: a late segment of an earlier answer can otherwise be taken for one of the current)
-        chains: List[bytes] = []
-        cur: List[bytes] = []
-        want_idx = 0
-        for r in hist:
-            if r.dst != tr.local or r.verb != "STATV":
-                continue
-            inner = inner_of(r.data)
-            if inner[5] == 0:
-                cur, want_idx = [], 0
-            if inner[5] != want_idx:
-                cur, want_idx = [], -1
-                continue
-            cur.append(inner[8:8 + inner[7]])
-            want_idx += 1
-            if inner[6] == 0:
-                chains.append(b"".join(cur))
-                cur, want_idx = [], -1
+        # (judged where the network neither duplicates nor delays.  A segment of an earlier answer that was still waiting in the client's own
+        #  receive queue when the retry went out may rightly be taken for one of the current answer -- segments carry no request identity --,
+        #  so the reference is what the refreshing task itself took from the queue during its last attempt, not what the spa sent)
         if world.cfg["profile"] in ("loss", "faultfree", "stall"):
+            q = sysm.queues.get(label)
             for w in others:
-                same_len = [c for c in chains if len(c) == len(w["segment"])]
-                if not same_len:
-                    res.probe("refresh_answer_not_reconstructible")
-                elif w["segment"] not in same_len:
-                    world.violate(PROP, "replayed-change", f"{label}: the refresh installed at {w['t']:.3f} (offset {w['offset']}, {len(w['segment'])} bytes) is none of the "
-                                  f"{len(same_len)} answers of that length the spa ever sent: pieces of different answers (an abandoned attempt and its retry) "
-                                  f"were installed as one", sig="refresh-mixes-attempts")
+                reqs = [r for r in hist if r.src == tr.local and r.verb == "STATU" and r.who == w["by"] and r.lseq is not None and r.lseq < w["seq"]]
+                if not reqs or q is None:
+                    continue
+                last = reqs[-1]
+                taken = []
+                for it in q.items:
+                    if not it["item"][0].startswith(b"STATV"):
+                        continue
+                    for pp in it["pops"]:
+                        if pp["by"] == w["by"] and last.lseq < pp["seq"] < w["seq"]:
+                            taken.append((pp["seq"], it["item"][0]))
+                taken.sort()
+                # the assembly rule, restated: within an attempt a segment is accepted when its index is the next expected one (others are
+                # ignored); the chain is complete when the accepted segment says "no next"
+                parts: List[bytes] = []
+                want_idx = 0
+                for _, d in taken:
+                    if d[5] == want_idx:
+                        parts.append(d[8:8 + d[7]])
+                        want_idx += 1
+                        if d[6] == 0:
+                            break
+                answer = b"".join(parts)
+                if answer != w["segment"]:
+                    world.violate(PROP, "replayed-change", f"{label}: the refresh installed at {w['t']:.3f} (offset {w['offset']}, {len(w['segment'])} bytes) is not what "
+                                  f"{w['by']} took from the receive queue during its last attempt (request sent at {last.t:.3f}; {len(taken)} segments, "
+                                  f"{len(answer)} bytes): bytes collected during an earlier, abandoned attempt were installed with it",
+                                  sig="refresh-mixes-attempts")
                 else:
                     res.probe("refresh_is_one_answer_of_the_spa")
         # refresh installs that overlap positions a partial update changed
